@@ -445,6 +445,24 @@ class G:
             self.emit("isect %s %s" % (e0, e1))
         # operands that TOUCH: the smallest value of one chunk is the largest value of the other's; the receiver grown by single
         # insertions (its slice has spare capacity), a clone of it (exact capacity) and an edited one
+        # in-place Xor whose merge first meets an argument-only key BEFORE a receiver key (or a cancelling pair) and LATER, at a higher
+        # key, a pair of equal chunks that cancels: keys, containers and flags must stay in step
+        for variant in range(3):
+            x, y = self.fresh(), self.fresh()
+            ks = sorted(r.sample(range(2, 60000), 4))
+            same = "%d:A:1,2,3,70" % ks[3]
+            xs = ["%d:A:5,9" % ks[1], "%d:R:10+300" % ks[2], same]
+            yarg = ["%d:A:4" % ks[0], "%d:A:8" % ks[2], same] if variant == 0 else \
+                   ["%d:A:5,9" % ks[1], "%d:R:10+300" % ks[2], same] if variant == 1 else ["%d:A:4" % ks[0], same, "%d:A:1" % (ks[3] + 1)]
+            self.emit("mkrepr %s cow=%d;%s" % (x, r.randrange(2), ";".join(xs)))
+            self.emit("mkrepr %s cow=0;%s" % (y, ";".join(yarg)))
+            self.emit("ixor %s %s" % (x, y))
+            self.emit("wf %s" % x)
+            self.emit("add %s %d" % (x, ks[1] * CH + 77))
+            c = self.fresh()
+            self.emit("clone %s %s" % (c, x))
+            self.emit("wf %s" % c)
+            self.count("alg:ixor-cancel-after-insert")
         # a run operand built by ascending range insertions (its interval slice has spare capacity), united with several operands
         # whose runs all lie beyond its last run: EARLIER results are looked at again after the later calls
         for k in (self.key(), self.key()):
@@ -627,6 +645,21 @@ class G:
                 self.emit("wf %s" % y)
 
 
+    def offset_join_episode(self):
+        """two consecutive chunks whose shifted halves meet under one key as ARRAY parts holding more than 4096 values together"""
+        r = self.r
+        k = r.choice([0, 5, 40000, 65533])
+        x = self.fresh()
+        up = sorted(r.sample(range(40000, 65536), 3000))
+        lo = sorted(r.sample(range(0, 25000), 3000))
+        self.emit("mkrepr %s cow=0;%d:A:%s;%d:A:%s" % (x, k, ",".join(map(str, up)), k + 1, ",".join(map(str, lo))))
+        for d in (30000, 35000, -30000, 16384, 65536 + 30000, -(65536 + 31000)):
+            y = self.fresh()
+            self.emit("off %s %s %d" % (y, x, d))
+            self.emit("wf %s" % y)
+            self.emit("ser %s" % y)
+            self.count("xform:offset-join")
+
     def suite_dense(self, nb):
         """C16: dense conversions"""
         r = self.r
@@ -768,6 +801,7 @@ def _sizeb(g, scale):
 
 @suite("xform")
 def _xform(g, scale):
+    g.offset_join_episode()
     g.suite_xform(int(25 * scale))
 
 
